@@ -38,7 +38,7 @@ TInit == Init /\ l = 1 /\ rej = {} /\ fresh = TRUE /\ skipping = FALSE /\ skippe
 
 \* a new trace starts: back to the initial state of the state machine (silent step)
 Reset == /\ l <= Len(Trace) /\ Ev.first /\ ~fresh
-         /\ content' = [i \in Slots |-> [n \in Names |-> 0]] /\ mtime' = [i \in Slots |-> [n \in Names |-> 0]]
+         /\ content' = [i \in Slots |-> [n \in Names |-> 0]] /\ mtime' = [i \in Slots |-> [n \in Names |-> -1]]
          /\ loads' = [i \in Loaders |-> [n \in Names |-> 0]] /\ cache' = [n \in Names |-> NoEntry]
          /\ cacheOn' = TRUE /\ autoReload' = InitAuto /\ clock' = 1 /\ hist' = <<>> /\ remembered' = [n \in Names |-> 0]
          /\ fresh' = TRUE /\ skipping' = FALSE
